@@ -38,6 +38,10 @@ CHECKS = {
    text="Exploration: both hosts' timestamp clocks (steady at boundary/OS-typical/every-integer rates, out-of-range, jittering, stalled, stepping backward, wrapping), gaps drawn around 25 ms/100 ms/30 s/600 s, interleaved second connection, ports on both sides of the role heuristic, wall-clock jumps. Every timestamped segment is judged against a 60-line model (grid rounding, uptime decomposition, wrap period, role rule, bad-marker). Systematic part: every integer rate 1..1500 (quick: every 7th) x boundary gaps.",
    note="Model assumptions: the rate of a pair is ticks*1000/ms as the analyzer observed them; with fewer than 5 ticks of movement either outcome is accepted; an entry is assumed to live at least 30 s and at most judged within 10 min; after a wall-clock jump endpoints whose reference predates the jump are no longer judged (narrow relaxation). One open known finding (backward movement).",
    design="4/C19"),
+ "C20": dict(engine="netsim", technique="deterministic simulation: lockstep differential of HuginnNet (one instance per switch combination) against HuginnNetTcp, HuginnNetHttp and the stateless TLS path on seeded traces (interleaved connections, single-segment ClientHellos, corrupted and spliced frames) under one simulated clock",
+   text="Exploration: per frame and per enabled protocol the unified result's fields are compared (canonical Debug text incl. endpoints, labels, qualities, MTU, uptime, diagnosis, language, JA4) with the protocol analyzer's output whenever every enabled analyzer accepted the frame; disabled protocols must contribute nothing; with matching off every quality must be Disabled and every raw signature equal to the matching-on instance; the constructor's database rule is checked for all 16 combinations. Quick samples 6 combinations per trace, thorough all 16.",
+   note="Differential against the protocol analyzers run in the same process at the same simulated times with the same capacity; a defect shared by both sides is invisible here.",
+   design="4/C20"),
 }
 
 def main():
